@@ -808,6 +808,16 @@ func genC04ab(c *Ctx) {
 			c.Emit("slegalmem " + encPos(p) + " " + encMove(m))
 		}
 	}
+	// table budgets in bytes, from below one entry upwards
+	for _, mem := range []int64{1, 8, 31, 32, 33, 63, 64, 65, 100, 1000, 4096} {
+		if int(mem)%c.NShard != c.Shard {
+			continue
+		}
+		for j := 0; j < 3; j++ {
+			p := livePosition(r, 3+r.Intn(3))
+			c.Count("c04mem=" + clip(c.Emit(fmt.Sprintf("c04mem %d %d %s", mem, 1+r.Intn(2), encPos(p))), 8))
+		}
+	}
 	// the bot's pattern: one engine, a context per move; the first move's context ends inside the second search
 	// (at its very first leaves, in the middle, near the end)
 	n = c.Scale(60, 4000)
